@@ -1,12 +1,12 @@
 package main
 
 import (
-	"runtime/debug"
 	"encoding/json"
 	"flag"
 	"fmt"
 	"os"
 	"path/filepath"
+	"runtime/debug"
 	"strings"
 	"time"
 
